@@ -15,12 +15,12 @@ def corrBlk (c : Config) (inv : Int) : List Prim :=
   if c.corrector != 0 then correctorOps c.coord c.corrector inv else []
 /-- the second-corrector block -/
 def c2Blk (c : Config) (inv : Int) : List Prim :=
-  if c.corrector2 then corrector2Ops inv else []
+  if c.corrector2 then corrector2Ops c.c2fixed inv else []
 
 theorem closed_corrBlk (c : Config) (inv : Int) : Closed (corrBlk c inv) :=
   closed_ite _ (closed_corrector _ _ _) closed_nil
 theorem closed_c2Blk (c : Config) (inv : Int) : Closed (c2Blk c inv) :=
-  closed_ite _ (closed_corrector2 _) closed_nil
+  closed_ite _ (closed_corrector2 _ _) closed_nil
 
 /-- group laws of the primitives (exact arithmetic) -/
 structure Laws [AddCommGroup T] (S : Sem T PJ X V A) : Prop where
@@ -102,6 +102,11 @@ def Config.mode (c : Config) (safe keep : Bool) : Config := { c with safe := saf
 @[simp] theorem syncMid_mode (c : Config) (a b : Bool) : syncMid (c.mode a b) = syncMid c := rfl
 @[simp] theorem mode_safe (c : Config) (a b : Bool) : (c.mode a b).safe = a := rfl
 @[simp] theorem mode_keep (c : Config) (a b : Bool) : (c.mode a b).keep = b := rfl
+@[simp] theorem mode_coord (c : Config) (a b : Bool) : (c.mode a b).coord = c.coord := rfl
+@[simp] theorem mode_kernel (c : Config) (a b : Bool) : (c.mode a b).kernel = c.kernel := rfl
+@[simp] theorem mode_corrector (c : Config) (a b : Bool) : (c.mode a b).corrector = c.corrector := rfl
+@[simp] theorem mode_corrector2 (c : Config) (a b : Bool) : (c.mode a b).corrector2 = c.corrector2 := rfl
+@[simp] theorem mode_c2fixed (c : Config) (a b : Bool) : (c.mode a b).c2fixed = c.c2fixed := rfl
 
 /-- shape of a safe-mode step from a synchronised state -/
 theorem stepOps_safe (c : Config) (r : Bool) :
@@ -112,17 +117,171 @@ theorem stepOps_safe (c : Config) (r : Bool) :
       ([.init] ++ syncMid c, ⟨true, false, true⟩) := by
     rw [syncOps_unsync _ _ (by simp [initF])]
     simp [initF]
-  cases r
-  · simp [stepOps, part1Ops, part2Ops, initF, driftOps, stepTail, List.append_assoc, e, Config.mode]
-    set_option pp.all true in trace_state
-    rfl
-  · simp [stepOps, part1Ops, part2Ops, initF, driftOps, stepTail, List.append_assoc, e, Config.mode]
-    rfl
+  cases r <;>
+    simp [stepOps, part1Ops, part2Ops, initF, driftOps, stepTail, List.append_assoc, e] <;> rfl
 
 /-- shape of an unsafe-mode (no keep) synchronize from an unsynchronised state -/
 theorem syncOps_unsafe_unsync (c : Config) (r : Bool) :
     syncOps (c.mode false false) ⟨false, r, true⟩ = ([.init] ++ syncMid c, ⟨true, r, true⟩) := by
   rw [syncOps_unsync _ _ (by simp [initF])]
   simp [initF]
+
+theorem initF_isSync (f : Flags) : (initF f).isSync = f.isSync := by
+  unfold initF; split <;> rfl
+
+theorem flags_eta (f : Flags) : f = ⟨f.isSync, f.recalc, f.allocated⟩ := rfl
+
+/-- shapes of an unsafe-mode (no keep) step -/
+theorem stepOps_unsafe_unsync (c : Config) :
+    stepOps (c.mode false false) ⟨false, false, true⟩ =
+      ([.init] ++ driftOps c false ++ stepTail c ++ [.advT (.frac 1 2)], ⟨false, false, true⟩) := by
+  rw [stepOps_unsafe _ rfl _ rfl]; simp
+theorem stepOps_unsafe_sync (c : Config) :
+    stepOps (c.mode false false) ⟨true, false, true⟩ =
+      ([.init] ++ driftOps c true ++ stepTail c ++ [.advT (.frac 1 2)], ⟨false, false, true⟩) := by
+  rw [stepOps_unsafe _ rfl _ rfl]; simp
+theorem stepOps_unsafe_fresh (c : Config) :
+    stepOps (c.mode false false) ⟨true, true, true⟩ =
+      ([.init, .fromInertial] ++ driftOps c true ++ stepTail c ++ [.advT (.frac 1 2)],
+       ⟨false, false, true⟩) := by
+  rw [stepOps_unsafe _ rfl _ rfl]; simp
+
+/-- relation between the unsafe run `u` (steps and synchronisations) and the safe run `v`
+    (the same steps) -/
+inductive Inv (S : Sem T PJ X V A) (c : Config) :
+    Flags × St PJ X V A → Flags × St PJ X V A → Prop
+  /-- nothing stepped yet: same state, synchronised, coordinates will be recalculated -/
+  | fresh (u v) : u.2 = v.2 → initF u.1 = ⟨true, true, true⟩ → initF v.1 = ⟨true, true, true⟩ → Inv S c u v
+  /-- unsafe run is half a drift behind -/
+  | unsync (u v) : u.1 = ⟨false, false, true⟩ → v.1 = ⟨true, false, true⟩ →
+      v.2.pj = (exec S (syncMid c) u.2).pj → v.2.pos = S.toIpos v.2.pj → v.2.vel = S.toIvel v.2.pj →
+      Inv S c u v
+  /-- unsafe run was synchronised by the user -/
+  | synced (u v) : u.1 = ⟨true, false, true⟩ → v.1 = ⟨true, false, true⟩ →
+      u.2.pj = v.2.pj → u.2.pos = v.2.pos → u.2.vel = v.2.vel →
+      v.2.pos = S.toIpos v.2.pj → v.2.vel = S.toIvel v.2.pj → Inv S c u v
+
+theorem exec_cons (S : Sem T PJ X V A) (p : Prim) (ps : List Prim) (s : St PJ X V A) :
+    exec S (p :: ps) s = exec S ps (denote S p s) := rfl
+
+/-- the common end of every step case: once the drifts agree on `pj`, the safe run ends
+    `syncMid` ahead of the unsafe one -/
+theorem step_join (S : Sem T PJ X V A) (c : Config) (a b : St PJ X V A) (h : a.pj = b.pj) :
+    let u' := exec S (stepTail c ++ [.advT (.frac 1 2)]) a
+    let v' := exec S (stepTail c ++ ([.init] ++ syncMid c) ++ [.advT (.frac 1 2)]) b
+    v'.pj = (exec S (syncMid c) u').pj ∧ v'.pos = S.toIpos v'.pj ∧ v'.vel = S.toIvel v'.pj := by
+  intro u' v'
+  have e1 : u' = exec S (stepTail c) a := by
+    show exec S (stepTail c ++ [.advT (.frac 1 2)]) a = _
+    rw [exec_append]; rfl
+  have e2 : v' = exec S (syncMid c) (exec S (stepTail c) b) := by
+    show exec S (stepTail c ++ ([.init] ++ syncMid c) ++ [.advT (.frac 1 2)]) b = _
+    rw [exec_append, exec_append, exec_append]; rfl
+  rw [e1, e2]
+  refine ⟨?_, (syncMid_pos S c _).1, (syncMid_pos S c _).2⟩
+  exact closed_pj_congr S (closed_syncMid c) (closed_pj_congr S (closed_stepTail c) h).symm
+
+theorem inv_step {S : Sem T PJ X V A} (L : Laws S) (c : Config)
+    (hC : InverseOn S (corrBlk c)) (hC2 : InverseOn S (c2Blk c))
+    {u v : Flags × St PJ X V A} (h : Inv S c u v) :
+    Inv S c (apply S (c.mode false false) .step u) (apply S (c.mode true false) .step v) := by
+  rw [apply_step, apply_step]
+  cases h with
+  | fresh h1 h2 h3 =>
+    rw [← stepOps_initF _ u.1, ← stepOps_initF _ v.1, h2, h3, stepOps_unsafe_fresh, stepOps_safe]
+    have hj := step_join S c (exec S ([.init, .fromInertial] ++ driftOps c true) u.2)
+      (exec S ([.init, .fromInertial] ++ driftOps c true) v.2) (by rw [h1])
+    refine Inv.unsync _ _ rfl rfl ?_ ?_ ?_ <;>
+      simp only [List.append_assoc, exec_append] at hj ⊢
+    · exact hj.1
+    · exact hj.2.1
+    · exact hj.2.2
+  | unsync h1 h2 h3 h4 h5 =>
+    rw [h1, h2, stepOps_unsafe_unsync, stepOps_safe]
+    have hw : (exec S [.init, .fromInertial] v.2).pj = (exec S (syncMid c) u.2).pj := by
+      simp only [exec, denote]; rw [h4, h5, L.from_to, h3]
+    have hd := merge_drifts L c hC hC2 u.2 _ hw
+    have hj := step_join S c (exec S ([.init] ++ driftOps c false) u.2)
+      (exec S ([.init, .fromInertial] ++ driftOps c true) v.2)
+      (by rw [exec_append, exec_append]; exact hd.symm)
+    refine Inv.unsync _ _ rfl rfl ?_ ?_ ?_ <;>
+      simp only [List.append_assoc, exec_append] at hj ⊢
+    · exact hj.1
+    · exact hj.2.1
+    · exact hj.2.2
+  | synced h1 h2 h3 h4 h5 h6 h7 =>
+    rw [h1, h2, stepOps_unsafe_sync, stepOps_safe]
+    have hw : (exec S [.init, .fromInertial] v.2).pj = (exec S [.init] u.2).pj := by
+      simp only [exec, denote]; rw [h6, h7, L.from_to, h3]
+    have hj := step_join S c (exec S ([.init] ++ driftOps c true) u.2)
+      (exec S ([.init, .fromInertial] ++ driftOps c true) v.2)
+      (by rw [exec_append, exec_append]; exact (closed_pj_congr S (closed_driftOps c true) hw).symm)
+    refine Inv.unsync _ _ rfl rfl ?_ ?_ ?_ <;>
+      simp only [List.append_assoc, exec_append] at hj ⊢
+    · exact hj.1
+    · exact hj.2.1
+    · exact hj.2.2
+
+theorem inv_sync (S : Sem T PJ X V A) (c : Config) {u v : Flags × St PJ X V A} (h : Inv S c u v) :
+    Inv S c (apply S (c.mode false false) .synchronize u) v := by
+  rw [apply_sync]
+  cases h with
+  | fresh h1 h2 h3 =>
+    have hs : (initF u.1).isSync = true := by rw [h2]
+    rw [syncOps_sync _ _ hs]
+    exact Inv.fresh _ _ h1 (by rw [initF_idem]; exact h2) h3
+  | unsync h1 h2 h3 h4 h5 =>
+    rw [h1, syncOps_unsafe_unsync]
+    have e : exec S ([Prim.init] ++ syncMid c) u.2 = exec S (syncMid c) u.2 := rfl
+    refine Inv.synced _ _ rfl h2 ?_ ?_ ?_ h4 h5 <;> simp only [e]
+    · exact h3.symm
+    · rw [(syncMid_pos S c _).1, ← h3, h4]
+    · rw [(syncMid_pos S c _).2, ← h3, h5]
+  | synced h1 h2 h3 h4 h5 h6 h7 =>
+    have hs : (initF u.1).isSync = true := by rw [h1]; rfl
+    rw [syncOps_sync _ _ hs, h1]
+    exact Inv.synced _ _ rfl h2 h3 h4 h5 h6 h7
+
+theorem inv_run {S : Sem T PJ X V A} (L : Laws S) (c : Config)
+    (hC : InverseOn S (corrBlk c)) (hC2 : InverseOn S (c2Blk c))
+    (σ : List (Op (X × V))) (hσ : ∀ o ∈ σ, o.benign = true) (u v : Flags × St PJ X V A)
+    (h : Inv S c u v) :
+    Inv S c (run S (c.mode false false) σ u) (run S (c.mode true false) (σ.filter Op.isStep) v) := by
+  induction σ generalizing u v with
+  | nil => exact h
+  | cons o os ih =>
+    have hos : ∀ o ∈ os, o.benign = true := fun o ho => hσ o (List.mem_cons_of_mem _ ho)
+    have ho := hσ o List.mem_cons_self
+    cases o with
+    | step =>
+      simp only [List.filter, Op.isStep, run]
+      exact ih hos _ _ (inv_step L c hC hC2 h)
+    | synchronize =>
+      simp only [List.filter, Op.isStep, run]
+      exact ih hos _ _ (inv_sync S c h)
+    | read =>
+      simp only [List.filter, Op.isStep, run]
+      exact ih hos _ _ h
+    | setRecalc => simp [Op.benign] at ho
+    | poke v => simp [Op.benign] at ho
+
+/-- after a final synchronize the unsafe run shows what the safe run shows -/
+theorem inv_final (S : Sem T PJ X V A) (c : Config) {u v : Flags × St PJ X V A} (h : Inv S c u v) :
+    (apply S (c.mode false false) .synchronize u).2.pj = v.2.pj ∧
+    (apply S (c.mode false false) .synchronize u).2.pos = v.2.pos ∧
+    (apply S (c.mode false false) .synchronize u).2.vel = v.2.vel := by
+  have := inv_sync S c h
+  cases this with
+  | fresh h1 h2 h3 => rw [h1]; exact ⟨rfl, rfl, rfl⟩
+  | unsync h1 h2 h3 h4 h5 =>
+    -- impossible: synchronize (no keep) always leaves is_synchronized = 1
+    exfalso
+    have : (apply S (c.mode false false) .synchronize u).1.isSync = true := by
+      rw [apply_sync]
+      cases hs : (initF u.1).isSync
+      · rw [syncOps_unsync _ _ hs]; simp
+      · rw [syncOps_sync _ _ hs]; exact hs
+    rw [h1] at this; cases this
+  | synced h1 h2 h3 h4 h5 h6 h7 => exact ⟨h3, h4, h5⟩
 
 end RV.Sync
